@@ -213,6 +213,28 @@ func runC19(w *mon.W) {
 			h := randString(r, "ACGT", n/2+1)
 			s = h + oracle.MustRevComp(h)
 		}
+		if i%10 == 7 {
+			// a long self-complementary oligo with exactly one pair broken (point variants of a palindromic probe), the
+			// broken pair at every depth in turn; or the palindrome with one to three unpaired letters added at each end
+			half := 21 + r.Intn(79)
+			h := randString(r, "ACGT", half)
+			pal := []byte(h + oracle.MustRevComp(h))
+			if r.Intn(3) == 0 {
+				fl := 1 + r.Intn(3)
+				s = strings.Repeat("C", fl) + string(pal) + strings.Repeat("C", fl)
+				if len(s) > 200 {
+					s = s[:200]
+				}
+			} else {
+				pos := (i / 10) % half
+				if r.Intn(2) == 0 {
+					pos = len(pal) - 1 - pos
+				}
+				pal[pos] = "ACGT"[(strings.IndexByte("ACGT", pal[pos])+1+r.Intn(3))%4]
+				s = string(pal)
+			}
+			w.Add("palindromic_oligos_with_one_broken_pair_or_flanks", 1)
+		}
 		if i%10 == 4 {
 			// hairpin / inverted-repeat designs: arms of 8..70 bases that are reverse complements of each other around
 			// a loop that is not (self-complementary only if the whole oligo is)
